@@ -1,8 +1,9 @@
 (* Findings.v — the dependency hypothesis of the refinement theorem cannot be dropped:
    witness D2 (a method reads an assigned field through its receiver), run on the IMPL-MODEL.
    The same scenario fails on the real engine (tools/harness/regress.go, known_findings.json).
-   D3 (an element read through a computed selector and written through a constant one) is a second
-   family of witnesses; it is replayed by the harness as well. *)
+   D3 (an element read through a computed selector and written through a constant one) was a second
+   family of witnesses until the engine was repaired (WorkingMemory.ResetElement, Eval.reset_assigned);
+   its scenarios are kept in the harness as passing regressions. *)
 From Grule Require Import Base Values Syntax EngineGen EngineAbs Facts Eval Fresh Engine Methods
      EngineProofs StateTrack Refinement RefineTheorems.
 Open Scope Z_scope.
@@ -59,4 +60,4 @@ Proof. vm_compute. reflexivity. Qed.
 
 (* Together with C01_proved (RefineTheorems.v) this shows that d2_rules does not satisfy the dependency
    hypothesis: the hypothesis is a genuine restriction on rule sets, and it is exactly the recorded
-   findings D2/D3 that fall outside it. *)
+   finding D2 that falls outside it. *)
